@@ -320,6 +320,14 @@ func (g *gen) sideEffect(d int) {
 // ---------- conditions ----------
 
 func (g *gen) cnd(d int) {
+	if g.chance(12) {
+		// a bare variable in test position (numbers are truthy)
+		if cs := g.cands(isNumVar); len(cs) > 0 {
+			g.feat("bare-test")
+			g.ref(g.pickCand(cs), "")
+			return
+		}
+	}
 	if d <= 0 || g.budget <= 0 {
 		g.e.head([]string{"<", "=", ">", "<="}[g.intn(4)])
 		g.numLeaf()
@@ -690,11 +698,40 @@ func allNum(ts []Ty) bool {
 
 // callSome calls a visible function.
 func (g *gen) callSome(d int) bool {
+	if g.curDef != nil && g.inFn && len(g.fwd) > 0 && g.chance(45) && g.forwardCall(d) {
+		return true
+	}
 	cs := g.cands(isCallable)
 	if len(cs) == 0 {
 		return false
 	}
 	g.call(g.pickCand(cs), d)
+	return true
+}
+
+// forwardCall calls, from inside a function body, a function of this package
+// that is DEFINED FURTHER DOWN in the file (its signature was fixed when the
+// section was planned).  The calling function is not run before the section is
+// complete (see section), so the call is bound when it executes.
+func (g *gen) forwardCall(d int) bool {
+	var ts []*bind
+	for _, b := range g.fwd {
+		if g.lookup(b.name) == nil && !g.avoid[b.name] {
+			ts = append(ts, b)
+		}
+	}
+	if len(ts) == 0 {
+		return false
+	}
+	b := ts[g.intn(len(ts))]
+	g.feat("forward-call")
+	g.curDef.fwdUsed = true
+	g.e.open()
+	g.e.sym(Occ{N: b.name, R: "ref", B: b.id, K: "defun", C: "forward-call"})
+	for range b.sig.req {
+		g.num(d - 1)
+	}
+	g.e.close()
 	return true
 }
 
